@@ -163,9 +163,67 @@ static Outcome bead_case(int topi, const std::string &mode, const std::string &p
   return o;
 }
 
+// reuse history on ONE BeadList (and one Topology). ops separated by ',':  G:<mode>:<pattern> = Generate on the same
+// list;  B:<name>:<type> = the topology gains a bead.  Contract read from beadlist.cc: Generate never clears, it
+// APPENDS the matching beads (topology order at the time of the call) and returns the total size of the list.
+static Outcome beadseq_case(int topi, const std::string &ops) {
+  using namespace votca::csg;
+  Outcome o;
+  std::string cas = "beadseq;top=" + std::to_string(topi) + ";ops=" + ops;
+  if (topi < 0 || topi >= (int)btops().size()) { o.ok = false; o.key = "bad-case"; o.what = "unknown topology"; return o; }
+  BTop B = btops()[topi];
+  Topology top;
+  top.CreateResidue("res");
+  for (size_t i = 0; i < B.name.size(); i++) {
+    if (!top.BeadTypeExist(B.type[i])) top.RegisterBeadType(B.type[i]);
+    top.CreateBead(Bead::spherical, B.name[i], B.type[i], 0, 1.0, 0.0);
+  }
+  BeadList bl;
+  std::vector<long> exp;
+  bool grown = false;
+  int ngen = 0;
+  auto show = [](const std::vector<long> &v) {
+    std::string s = "{";
+    for (long x : v) s += std::to_string(x) + " ";
+    return s + "}";
+  };
+  for (auto &op : bsx::split(ops, ',')) {
+    auto f = bsx::split(op, ':');
+    if (f.size() != 3) { o.ok = false; o.key = "bad-case"; o.what = "bad op " + op; return o; }
+    if (f[0] == "B") {
+      if (!top.BeadTypeExist(f[2])) top.RegisterBeadType(f[2]);
+      top.CreateBead(Bead::spherical, f[1], f[2], 0, 1.0, 0.0);
+      B.name.push_back(f[1]); B.type.push_back(f[2]);
+      grown = true;
+      continue;
+    }
+    for (size_t i = 0; i < B.name.size(); i++)
+      if (refmatch(f[2], f[1] == "name" ? B.name[i] : B.type[i])) exp.push_back((long)i);
+    votca::Index n = bl.Generate(top, (f[1] == "name" ? "name:" : "") + f[2]);
+    ngen++;
+    std::vector<long> got;
+    for (Bead *b : bl) got.push_back((long)b->getId());
+    std::string cls = std::string(ngen > 1 ? "repeated-generate" : "first-generate") + (grown ? "-after-topology-growth" : "");
+    if (got != exp) {
+      o.ok = false; o.key = "beadlist-reuse-" + cls + "-wrong";
+      o.what = "after op " + op + " (Generate #" + std::to_string(ngen) + " on the same BeadList) the list holds bead ids " + show(got) + ", expected the appended selections " + show(exp) + " [" + cas + "]";
+      return o;
+    }
+    if ((long)n != (long)exp.size() || (long)bl.size() != (long)exp.size() || &bl.getTopology() != &top) {
+      o.ok = false; o.key = "beadlist-reuse-" + cls + "-count-mismatch";
+      o.what = "after op " + op + " Generate returned " + std::to_string(n) + ", size() " + std::to_string(bl.size()) + ", list should hold " + std::to_string(exp.size()) + " [" + cas + "]";
+      return o;
+    }
+  }
+  o.extra = show(exp);
+  if (!exp.empty()) o.cls = bsx::fnv("seq" + std::to_string(topi) + ops + show(exp));
+  return o;
+}
+
 static Outcome run_case(const std::string &cas) {
   auto m = bsx::kvs(cas);
   if (cas.rfind("wild;", 0) == 0) return wild_one(m["p"], m["s"]);
+  if (cas.rfind("beadseq;", 0) == 0) return beadseq_case(atoi(m["top"].c_str()), m["ops"]);
   if (cas.rfind("bead;", 0) == 0) return bead_case(atoi(m["top"].c_str()), m["mode"], m["p"]);
   Outcome o; o.ok = false; o.key = "bad-case"; o.what = "unknown case " + cas;
   return o;
@@ -199,7 +257,7 @@ int main(int argc, char **argv) {
   R.rule += "both overloads, oracle = DP glob matcher; distinct = distinct non-trivial match sets (pattern language restricted to the universe). "
             "BeadList::Generate: " + std::string(thorough ? "all patterns of length <= 5 over {a,b,*,?} and <= 4 over {a,b,c,*,?} on 3 topologies (6 beads two letters; 8 beads three letters; 9 beads with repeated names/types)"
                                                             : "all patterns of length <= 3 over {a,b,*,?} on a 6-bead topology (names/types are different permutations of {a,b,ab,ba,aab,bb})") +
-            ", each as type pattern and as 'name:' pattern; oracle = reference matcher over the beads in topology order; distinct = distinct non-trivial selections";
+            ", each as type pattern and as 'name:' pattern; oracle = reference matcher over the beads in topology order; reuse histories: all ordered pairs (thorough: triples on 2 topologies) over 8 selections and 2 topology-growth ops on ONE BeadList, the list must hold the concatenated selections; distinct = distinct non-trivial selections / histories";
 
   long long gi = 0;
   for (auto &u : U) {
@@ -265,7 +323,30 @@ int main(int argc, char **argv) {
             R.sample("topology " + std::to_string(c.top) + ": Generate(\"" + std::string(c.mode == "name" ? "name:" : "") + c.p + "\") -> bead ids " + o.extra);
         }, 30);
   }
-  R.assumptions = {"glob meaning: '*' any run incl. empty, '?' exactly one character, all other characters literal (a '*' or '?' in the subject string is an ordinary character)",
+  // bead list reuse histories: all ordered pairs (thorough: triples, two topologies) over 8 selections and 2 topology-growth ops
+  {
+    std::vector<std::string> B = {"G:type:a*", "G:type:*b", "G:type:?", "G:type:*", "G:name:a*", "G:name:b", "G:name:??", "G:type:zz", "B:ab:b", "B:zz:a"};
+    std::vector<std::pair<int, std::string>> C;
+    for (int t : (thorough ? std::vector<int>{0, 2} : std::vector<int>{0}))
+      for (auto &x : B) for (auto &y : B) {
+        C.push_back({t, x + "," + y});
+        if (thorough) for (auto &z : B) C.push_back({t, x + "," + y + "," + z});
+      }
+    std::vector<long long> mineidx;
+    for (long long i = 0; i < (long long)C.size(); i++) if (a.mine(i)) mineidx.push_back(i);
+    bsx::contained(
+        0, (long long)mineidx.size(), [&](long long k) { return beadseq_case(C[mineidx[k]].first, C[mineidx[k]].second); },
+        [&](long long k, const Outcome &o) {
+          auto &c = C[mineidx[k]];
+          std::string cas = "beadseq;top=" + std::to_string(c.first) + ";ops=" + c.second;
+          R.eval(); R.counters["bead_reuse_histories"]++;
+          if (!o.ok) { R.fail(o.key == "fatal" ? "beadlist-reuse-crash" : o.key, o.what + (o.key == "fatal" ? " [" + cas + "]" : ""), cas); return; }
+          if (o.cls) R.cls(o.cls);
+          if (R.samples.size() < 8 && o.cls && (k % 23) == 7) R.sample(cas + " -> list " + o.extra);
+        }, 30);
+  }
+  R.assumptions = {"BeadList::Generate appends to the list and returns its total size (read from beadlist.cc: beads_ is never cleared); a history of Generate calls on one list must hold exactly the concatenated selections",
+                   "glob meaning: '*' any run incl. empty, '?' exactly one character, all other characters literal (a '*' or '?' in the subject string is an ordinary character)",
                    "tokenizer.cc is compiled into the harness with ASan/UBSan and wildcmp is called on exact-size heap copies, so a read past the terminating NUL is a (deterministic) failure",
                    "the quantifier's 'random longer ones' is replaced by exhaustive longer universes over smaller alphabets (thorough tier); no sampling is used",
                    "a selection string starting with 'name:' always means name selection (the code's convention); bead types starting with 'name:' are not selectable and not enumerated"};
